@@ -223,13 +223,17 @@ impl<'a> StateMachine<'a> {
         // When a file has \r\n line endings, git sometimes adds ANSI escape sequences between the
         // \r and \n, in which case byte_lines does not remove the \r. Remove it now.
         // TODO: Limit the number of characters we examine when looking for the \r?
-        if let Some(cr_index) = self.raw_line.rfind('\r') {
+        // (All of them: without escape sequences byte_lines removes one \r and the code below
+        // the next one, so `\r\r\n` must not depend on whether the line is colored.)
+        while let Some(cr_index) = self.raw_line.rfind('\r') {
             if ansi::measure_text_width(&self.raw_line[cr_index + 1..]) == 0 {
                 self.raw_line = format!(
                     "{}{}",
                     &self.raw_line[..cr_index],
                     &self.raw_line[cr_index + 1..]
                 );
+            } else {
+                break;
             }
         }
         if self.config.max_line_length > 0
